@@ -129,6 +129,27 @@ def run_case(rng, cdc_text, method, weight, fix_frac, constraints=False):
     return res
 
 
+def active_bound_case(method, weight):
+    import numpy as np
+    import pyimpspec
+    from pyimpspec import parse_cdc, DataSet
+    f = np.logspace(5, -1, 31)
+    w = 2 * np.pi * f
+    Z = -25.0 + 100.0 / (1 + 1j * w * 100.0 * 1e-5)
+    start = parse_cdc("R{R=50}(R{R=100}C{C=1e-5})")
+    try:
+        fit = pyimpspec.fit_circuit(start, DataSet(f, Z), method=method, weight=weight, max_nfev=200, num_procs=1)
+    except Exception as e:  # noqa
+        return [] if type(e).__name__ == "FittingError" else ["fit_circuit raised %s" % type(e).__name__]
+    out = []
+    for el in fit.circuit.get_elements(recursive=True):
+        v, lo, hi = el.get_values(), el.get_lower_limits(), el.get_upper_limits()
+        for k in v:
+            if not (lo[k] <= v[k] <= hi[k]):
+                out.append("%s.%s = %r outside [%r, %r]" % (fit.circuit.get_element_name(el), k, v[k], lo[k], hi[k]))
+    return out
+
+
 def shard_text(cases):
     items = []
     for i, (clit, var_names, params, table) in cases:
@@ -172,6 +193,13 @@ def run(rep, tier, seed, tr_errors):
         plan.append((FAMILIES[i % len(FAMILIES)], "auto", "auto", 0.0, False))
     cases, problems, untouched_bad = [], [], []
     recovered = attempted = 0
+    # active bounds at the DEFAULT limits (a lower limit of exactly zero): data with a negative series resistance, which the fit
+    # may not follow below zero
+    for m_, w_ in (("least_squares", "boukamp"), ("leastsq", "modulus")) + ((("nelder", "unity"), ("powell", "proportional")) if tier != "quick" else ()):
+        pr_ = active_bound_case(m_, w_)
+        rep.evaluations += 1
+        if pr_:
+            problems.append(("R(RC) with default limits on data with a negative series resistance", m_, w_, pr_[:4]))
     for i, (fam, m, w, ff, con) in enumerate(plan):
         res = run_case(rng, fam, m, w, ff, con)
         rep.evaluations += 1
